@@ -32,6 +32,13 @@ SKIP_FUNCS = {"from_pandas", "to_pandas", "to_larry", "to_cube", "from_cube", "t
 SLOW = {"C05", "C15", "C16"}
 
 
+FUNCMAP = {}
+for _p in ["C%02d" % i for i in range(1, 21)]:
+    _f = os.path.join(VERIF, "mutants", "funcmap", _p + ".json")
+    if os.path.exists(_f):
+        FUNCMAP[_p] = json.load(open(_f))
+
+
 def file_props():
     m = {}
     for l in open(os.path.join(VERIF, "properties.jsonl")):
@@ -180,9 +187,16 @@ def run_one(job):
             os.path.join(VERIF, "vp", "standins"), d)], capture_output=True, text=True, timeout=120)
         if r.returncode != 0:
             return dict(file=f, line=ln, ctx=ctx, kind=kind, verdict="import-broken")
-        allp = ["C%02d" % i for i in range(1, 21)]
-        order = [p for p in props if p not in SLOW] + [p for p in allp if p not in props and p not in SLOW] + \
-            ([p for p in props if p in SLOW] + [p for p in allp if p in SLOW and p not in props] if slow else [])
+        # only the checks whose workload reaches the mutated function (mutants/funcmap, from `VERIF_FUNCMAP=1 ./check`),
+        # fast ones first, then by how often they call it
+        key = os.path.splitext(os.path.basename(f))[0] + "." + (ctx.split(".")[-1] if ctx else "<module>")
+        reach = [(p, FUNCMAP.get(p, {}).get(key, 0)) for p in ["C%02d" % i for i in range(1, 21)]]
+        reach = [(p, n) for p, n in reach if n > 0]
+        if not ctx:
+            reach = [(p, 1) for p in props]
+        if not reach:
+            return dict(file=f, line=ln, ctx=ctx, kind=kind, verdict="unreached", detail="no workload calls %s" % key)
+        order = [p for p, n in sorted(reach, key=lambda pn: (pn[0] in SLOW, -pn[1])) if slow or p not in SLOW]
         tried = []
         for p in order:
             t0 = time.time()
